@@ -391,7 +391,10 @@ class Program:
         rng, g = self.rng, self.gen
         r = rng.random()
         if rng.random() < self.p_fault:
-            kind = rng.choice(["transfer", "transfer", "distribute", "dispense", "aspirate"])
+            kind = rng.choice(["transfer", "transfer", "distribute", "dispense", "aspirate", "invalid"])
+            if kind == "invalid":
+                # a NaN or (slightly) negative volume, compositions that do not pair up: refused, or at least harmless
+                return g.gen_invalid(sess, ["nan", "nan", "negative", "comps_len"])
             if kind == "transfer":
                 return g.gen_transfer(sess, rng.choice(["reject.underflow", "reject.overflow"]))
             if kind == "distribute":
